@@ -740,7 +740,7 @@ where
                 } else {
                     // No constants to send
                     let _ = client_send.send(client);
-                    let _ = cmd_sender.send(PolicyCmd::InternalConstsSent).await;
+                    self.send_to_self(PolicyCmd::InternalConstsSent);
                 }
             }
             PolicyStateKind::Running { policy, channel } => {
